@@ -115,11 +115,16 @@ class Library:
             MethodSpec("isGood", rand_params(r, 1), "bool"),
             MethodSpec("untyped", rand_params(r, 2), None),
         ], class_cb=maybe_cb(r, "Jet", 0.4), props=[("getAttr", CbDesc("Jet.getAttr", {"metadata_type": "attr"}, rename="getAttrFloat"), "float")])
-        vec = ClassSpec("Vec", [MethodSpec("lead", rand_params(r, 1), "T"), MethodSpec("size", [], "int")], tparams=["T"], base="Iterable[T]")
-        jvec = ClassSpec("JVec", [MethodSpec("hardest", [], "Jet")], base="Vec[Jet]")
+        # class-level callbacks along an inheritance chain: a decorated class that inherits a method from an undecorated
+        # base fires its own callback for it; an undecorated subclass inherits its base's
+        vec = ClassSpec("Vec", [MethodSpec("lead", rand_params(r, 1), "T"), MethodSpec("size", [], "int")], tparams=["T"], base="Iterable[T]",
+                        class_cb=maybe_cb(r, "Vec", 0.3))
+        jvec = ClassSpec("JVec", [MethodSpec("hardest", [], "Jet")], base="Vec[Jet]", class_cb=maybe_cb(r, "JVec", 0.5))
         # a generic subclass that re-uses its base's type-variable NAME with a different binding
-        grouped = ClassSpec("Grouped", [MethodSpec("first_group", rand_params(r, 1), "T"), MethodSpec("ngroups", [], "int")], tparams=["T"], base="Iterable[T]")
-        lgroups = ClassSpec("ListGroups", [MethodSpec("flat_size", [], "int")], tparams=["T"], base="Grouped[Iterable[T]]")
+        grouped = ClassSpec("Grouped", [MethodSpec("first_group", rand_params(r, 1), "T"), MethodSpec("ngroups", [], "int")], tparams=["T"], base="Iterable[T]",
+                            class_cb=maybe_cb(r, "Grouped", 0.3))
+        lgroups = ClassSpec("ListGroups", [MethodSpec("flat_size", [], "int")], tparams=["T"], base="Grouped[Iterable[T]]",
+                            class_cb=maybe_cb(r, "ListGroups", 0.5))
         evt = ClassSpec("Evt", [
             MethodSpec("jets", rand_params(r, 3), "Iterable[Jet]", maybe_cb(r, "Evt.jets", 0.4)),
             MethodSpec("trks", rand_params(r, 2), "Iterable[Trk]"),
@@ -139,6 +144,19 @@ class Library:
         self.use_coll = rng.random() < 0.5
         self.funcs["sqrtf"] = FuncSpec("sqrtf", [ParamSpec("x", "float"), ParamSpec("scale", "float", rng.choice([1.0, 2.5]))], "float", maybe_cb(r, "sqrtf", 0.5))
         self.funcs["delta"] = FuncSpec("delta", rand_params(r, 3, ["a", "b", "c", "mode"]), "float")
+
+    def class_cb_of(self, ty_text: str, fallback: ClassSpec) -> Optional[CbDesc]:
+        "python's getattr on the object's class: its own class-level callback, else the nearest inherited one"
+        name = ty_text.split("[", 1)[0]
+        c = self.classes.get(name, fallback)
+        for _ in range(8):
+            if c.class_cb is not None:
+                return c.class_cb
+            b = (c.base or "").split("[", 1)[0]
+            if b not in self.classes:
+                return None
+            c = self.classes[b]
+        return None
 
     # ---- python source -----------------------------------------------------------------------------------
     @staticmethod
@@ -343,7 +361,7 @@ class TypedGen:
             elif p.has_default:
                 norm_args.append(repr(p.default))
         name = m.name
-        for cb in (cls.class_cb, m.cb):
+        for cb in (self.lib.class_cb_of(recv.ty, cls), m.cb):
             if cb:
                 log.append(cb.tag)
                 if cb.md is not None:
@@ -448,12 +466,14 @@ class TypedGen:
 
     def select(self, s: TExpr, scope, d, want: str) -> TExpr:
         x, b = self.lam(self.elem_of(s), scope, d - 1, want)
-        return TExpr(f"{s.src}.Select(lambda {x}: {b.src})", f"{s.norm}.Select(lambda {x}: {b.norm})", f"Iterable[{b.ty}]",
+        kw = "f=" if self.rng.random() < 0.25 else ""  # the lambda passed by keyword: emitted positionally, still followed
+        return TExpr(f"{s.src}.Select({kw}lambda {x}: {b.src})", f"{s.norm}.Select(lambda {x}: {b.norm})", f"Iterable[{b.ty}]",
                      s.log + b.log, s.md + b.md, s.refusal or b.refusal)
 
     def where(self, s: TExpr, scope, d) -> TExpr:
         x, b = self.lam(self.elem_of(s), scope, d - 1, "bool")
-        return TExpr(f"{s.src}.Where(lambda {x}: {b.src})", f"{s.norm}.Where(lambda {x}: {b.norm})", s.ty,
+        kw = "filter=" if self.rng.random() < 0.25 else ""
+        return TExpr(f"{s.src}.Where({kw}lambda {x}: {b.src})", f"{s.norm}.Where(lambda {x}: {b.norm})", s.ty,
                      s.log + b.log, s.md + b.md, s.refusal or b.refusal)
 
     def called(self, scope, d, make):
